@@ -39,6 +39,26 @@ func c01(c *core.Check) {
 		r4.OK(fmt.Sprintf("%d module functions scanned for discarded ok results", nFns), "-", "no comma-ok assertion to a pointer or interface is dereferenced with its ok result unused")
 	}
 
+	r7 := c.Rule("R7", "non-empty preconditions: a function that panics when a string or slice parameter is empty is only called with a non-empty constant, under a test that keeps control away when the argument is empty, or with the caller's own parameter (the requirement then moves to the caller's callers)", 6)
+	reqs, sites := p.NonEmptyRequirements()
+	for _, rq := range reqs {
+		r7.Skip(fmt.Sprintf("requirement | %s parameter %d", core.FuncName(rq.Fn), rq.Param), p.Pos(rq.Fn.Pos()), rq.Why)
+	}
+	seenSite := map[string]int{}
+	for _, st := range sites {
+		caller := st.Call.Parent()
+		key := core.FuncName(caller) + " | " + p.StmtTextAt(caller, st.Call.Pos()) + " | " + st.Callee.Name()
+		seenSite[key]++
+		if seenSite[key] > 1 {
+			key = fmt.Sprintf("%s #%d", key, seenSite[key])
+		}
+		if why, tabled := c01NonEmptyNotes[key]; tabled && !st.OK {
+			r7.Skip(key, p.Pos(st.Call.Pos()), "not decided: "+why)
+			continue
+		}
+		r7.Cond(st.OK, key, p.Pos(st.Call.Pos()), st.How, st.How+": "+core.FuncName(st.Callee)+" panics on an empty argument")
+	}
+
 	// inventory (evidence only): explicit panics outside R1 assert internal invariants this family cannot prove dead
 	r6 := c.Rule("R6", "inventory, not a verdict: explicit panics of the rendering packages that are not the default of a keyword/enum/type switch decided by R1 assert internal invariants of layout and box building; they are listed per function as not decided", 0)
 	perFn := map[string]int{}
@@ -102,6 +122,8 @@ func c01Recursion(c *core.Check) {
 			return isMap && strings.HasSuffix(mt.Elem().String(), "properties.RawTokens")
 		})
 		r3.Cond(ok, "html/tree.resolveVar | computed[variableName]", p.Pos(rv.Pos()), why, why+": --a: var(--a) recurses until the stack is exhausted")
+		ok2, why2 := core.DescendingRecursion(p, rv, 1)
+		r3.Cond(ok2, "html/tree.resolveVar | recursion descends", p.Pos(rv.Pos()), why2, why2+": a function whose nested argument still holds a var() is rebuilt and resolved again without end")
 	}
 	if ru := p.Lookup("svg.(*svgContext).resolveUse"); ru == nil {
 		r3.Anchor("svg.(*svgContext).resolveUse")
@@ -490,4 +512,9 @@ var c01DivisionNotes = map[string]string{
 	"html/layout.cycle | i % N":                                             "N is the length of a background-* list of the style (layoutBoxBackgrounds): validators return one entry per comma-separated layer, at least one, and the initial values have one entry; non-emptiness of a validated list is a value invariant this rule does not derive",
 	"svg.GradientSpread.LinearGradient | i % len(nextColors)":               "nextColors is built from colors, which holds at least two stops: both callers (images.LinearGradient.Layout, svg.(*paintServer) gradients) return before this call for fewer stops, and gradientAverageColor states the same precondition; a length invariant across packages",
 	"svg.GradientSpread.LinearGradient | i % len(previousColors)":           "same as nextColors",
+}
+
+// call sites whose argument is non-empty by a relation this rule does not track
+var c01NonEmptyNotes = map[string]string{
+	"html/layout.splitTextBox | box = box.CopyWithText(newText) | CopyWithText": "newText is the text of the first line and the call is made under length > 0, the number of runes of that line as returned by the same SplitFirstLine call: a relation between two results of the text engine",
 }
